@@ -586,8 +586,10 @@ class DiskWriterFns:
             ok = r == p0 + len(data) and all(buf[p0 + j] == data[j] for j in range(len(data))) and \
                 all(buf[q] == base[q] for q in range(N) if not p0 <= q < p0 + len(data))
             env.ensure(KEY + "write_bytes_to_buffer::post", ok, ("C08", "C07"), lambda: "write_bytes_to_buffer:n=%d" % len(data))
-        elif fn == "fat":
-            gs = [h["g%d" % j] for j in range(cell["k"])]
+        elif fn in ("fat", "fatn"):
+            gs = [h["g%d" % j] for j in range(cell["k"])] if fn == "fat" else list(h.get("chain", []))[:h.get("k", 0)]
+            if len(set(gs)) != len(gs) or any(not 0 <= g <= 67 for g in gs) or not gs:
+                raise sym.PathAbort()
             s_ = h.get("s", 1)
             F.method(d, "write_to_fat", list(gs), s_)
             ok = all(buf[db.FAT_OFFSET + gs[j]] == gs[j + 1] for j in range(len(gs) - 1)) and buf[db.FAT_OFFSET + gs[-1]] == 0xC0 + s_ and \
